@@ -10,6 +10,8 @@ structure DState where
   cfg : Cfg
   groups : List (Name × List Name)
   users : List (Name × Bool)
+  /-- a running sequence on one shared cache: lifetime (ms) and handler-level state -/
+  seq : Option (Nat × HState) := none
 
 def DState.init : DState :=
   { cfg := { adminUsers := [], adminGroups := [], automationUsers := [], automationUserGroups := [],
@@ -171,6 +173,24 @@ def modelStep (st : DState) (fs : List String) : DState × String :=
       let eff := match d with | .pass e => e | .deny _ => target
       (st, outcomeStr (outcome op d (envFor st op eff index pending proof)))
     | _, _, _, _, _, _, _ => (st, "bad-op")
+  | ["sbegin", ms] =>
+    match ms.toNat? with
+    | some ms => ({ st with seq := some (ms, HState.init 1700000000000) }, "ok")
+    | none => (st, "bad-op")
+  | ["send"] => ({ st with seq := none }, "ok")
+  | ["sadv", d] =>
+    match st.seq, d.toNat? with
+    | some (ms, hs), some d => ({ st with seq := some (ms, hstep ms st.cfg hs (.advance d)) }, "ok")
+    | _, _ => (st, "bad-op")
+  | ["sreq", actor, dd, level, op, action, target, index, pending, proof] =>
+    match st.seq, unhexName actor, parseBool dd, level.toNat?, parseOp op action, unhexName target,
+          parseBool pending, parseBool proof with
+    | some (ms, hs), some actor, some dd, some level, some op, some target, some pending, some proof =>
+      let hs' := hreq ms st.cfg hs ⟨op, actor, level, target, groupsOf st dd⟩
+      let d := (hs'.handled.head?.map (·.dec)).getD (.deny .session)
+      let eff := match d with | .pass e => e | .deny _ => target
+      ({ st with seq := some (ms, hs') }, outcomeStr (outcome op d (envFor st op eff index pending proof)))
+    | _, _, _, _, _, _, _, _ => (st, "bad-op")
   | ["cseq", ms, evs] =>
     match ms.toNat? with
     | some ms =>
@@ -236,6 +256,32 @@ def judgeStep (st : DState) (fs : List String) : DState × String :=
         else if cls == "ok" || cls == "reject" || cls == "deny:401" || cls == "deny:403" then (st, "ok")
         else (st, "bad-op")
     | _, _, _, _, _, _ => (st, "bad-op")
+  | ["sbegin", ms] =>
+    match ms.toNat? with
+    | some ms => ({ st with seq := some (ms, HState.init 1700000000000) }, "ok")
+    | none => (st, "bad-op")
+  | ["send"] => ({ st with seq := none }, "ok")
+  | ["sadv", d] =>
+    match st.seq, d.toNat? with
+    | some (ms, hs), some d => ({ st with seq := some (ms, hstep ms st.cfg hs (.advance d)) }, "ok")
+    | _, _ => (st, "bad-op")
+  | "sj" :: actor :: dd :: level :: op :: action :: target :: cls :: effs =>
+    -- one step of an observed sequence: the administrator status comes from the history of
+    -- (time, actor, directory) and the CONFIG (`backedB`), never from a cache
+    match st.seq, unhexName actor, parseBool dd, level.toNat?, parseOp op action, unhexName target,
+          (effs.filter (· ≠ "-")).mapM parseEffect with
+    | some (ms, hs), some actor, some dd, some level, some op, some target, some effs =>
+      let g := groupsOf st dd
+      let hs' : HState := { hs with handled := ⟨hs.c.now, ⟨op, actor, level, target, g⟩, false, .deny .session⟩ :: hs.handled }
+      let adm := backedB ms st.cfg hs'.handled hs.c.now actor
+      let st' := { st with seq := some (ms, hs') }
+      match effs.find? (fun e => !effectAllowedB adm st.cfg g op actor level target e) with
+      | some e => (st', "viol effect=" ++ effStr e ++ " admin-by-config=" ++ boolStr adm)
+      | none =>
+        if cls == "ok" && !statusAllowedB adm op then (st', "viol status=ok-for-non-admin")
+        else if cls == "ok" || cls == "reject" || cls == "deny:401" || cls == "deny:403" then (st', "ok")
+        else (st', "bad-op")
+    | _, _, _, _, _, _, _ => (st, "bad-op")
   | "jc" :: _ => (st, judgeCache fs)
   | _ =>
     match cfgStep st fs with
